@@ -34,7 +34,7 @@ static unsigned long opno;
 /* edits since the last dup (for the return-value expectation) */
 static int last_dup_dst = -1, last_dup_src = -1, n_rep, n_nonrep, n_unsure, n_f13a;
 static unsigned long st_cases, st_ret0, st_ret0_empty, st_ret1, st_f13a, st_entries_S, st_entries_N, st_entries_I,
-    st_entries_T, st_hand, st_hand_fail, st_hand_ok, st_dupnames, st_xml, st_orc_fail_known, st_orc, st_misc, st_restrict, st_allow, st_kind, st_mattr, st_dist, st_xmltopo, st_hetero, st_xml_file, st_xml_big;
+    st_entries_T, st_hand, st_hand_fail, st_hand_ok, st_dupnames, st_xml, st_orc_fail_known, st_orc, st_misc, st_restrict, st_allow, st_kind, st_mattr, st_dist, st_xmltopo, st_hetero, st_xml_file, st_xml_big, st_distcell;
 static char g_tmpxml[1200];   /* scratch file of the XML-through-a-file round trips */
 
 /* ---------------------------------------------------------------- string buffer */
@@ -555,6 +555,20 @@ static void exec_line(char *line) {
       if (h && hwloc_distances_add_values(t, h, nn, objs, vals, 0) == 0 && hwloc_distances_add_commit(t, h, 0) == 0) { n_nonrep++; st_dist++; } else n_unsure++;
       edited(s);
     }
+  } else if (!strcmp(c, "distcell") && nt == 4) {
+    /* the matrix of `dist <v>` with ONE cell bumped, replacing whatever distances the slot had: against a slot that holds `dist <v>`
+     * the two structures have the same shape and differ in a single value, in any row */
+    unsigned nn = hwloc_get_nbobjs_by_type(t, HWLOC_OBJ_NUMANODE);
+    if (nn >= 2 && nn <= 8) {
+      hwloc_obj_t objs[8]; hwloc_uint64_t vals[64]; uint64_t v = strtoull(toks[2], NULL, 10); unsigned cell = (unsigned) strtoul(toks[3], NULL, 10) % (nn * nn);
+      hwloc_distances_remove(t);
+      for (unsigned i = 0; i < nn; i++) objs[i] = hwloc_get_obj_by_type(t, HWLOC_OBJ_NUMANODE, i);
+      for (unsigned i = 0; i < nn * nn; i++) vals[i] = (i % (nn + 1)) ? v + i : 10;
+      vals[cell] += 1000;
+      hwloc_distances_add_handle_t h = hwloc_distances_add_create(t, "verifdist", HWLOC_DISTANCES_KIND_FROM_USER | HWLOC_DISTANCES_KIND_VALUE_LATENCY, 0);
+      if (h && hwloc_distances_add_values(t, h, nn, objs, vals, 0) == 0 && hwloc_distances_add_commit(t, h, 0) == 0) { n_nonrep++; st_dist++; st_distcell++; } else n_unsure++;
+      edited(s);
+    }
   } else if (!strcmp(c, "allow") && nt == 3) {
     unsigned pu = strtoul(toks[2], NULL, 10);
     hwloc_bitmap_t set = hwloc_bitmap_dup(hwloc_topology_get_allowed_cpuset(t));
@@ -640,7 +654,7 @@ static void gen_edit(int s, int kind, int allow_dupnames) {
     case 7:
       for (unsigned k = 0; k < n; k++) { hwloc_obj_t x = dfs[(oi + k) % n]; if (x->type == HWLOC_OBJ_NUMANODE) { emit("mattr %d %u %u", s, (oi + k) % n, rng_below(4)); return; } }
       return;
-    case 8: emit("dist %d %u", s, rng_below(3)); return;
+    case 8: if (rng_chance(45)) emit("distcell %d %u %u", s, rng_below(3), rng_below(64)); else emit("dist %d %u", s, rng_below(3)); return;
     case 0: case 1: { /* add an info pair */
       int w = rng_chance(25) ? -1 : oi; struct hwloc_infos_s *in = w == -1 ? &t->infos : &o->infos;
       const char *nm = INAMES[rng_below(sizeof INAMES / sizeof *INAMES)];
@@ -822,9 +836,9 @@ int main(int argc, char **argv) {
     FILE *fs = fopen(argv[6], "w");
     if (fs) {
       fprintf(fs, "pairs %lu\nret0 %lu\nret0_empty %lu\nret1 %lu\nf13a_null_side %lu\nentries_size %lu\nentries_name %lu\nentries_info %lu\nentries_toocomplex %lu\n"
-              "hand_lists %lu\nhand_failed %lu\nhand_ok %lu\npairs_with_dup_info_names %lu\nxml_roundtrips %lu\noracle_checks %lu\noracle_fail_known_class %lu\nmisc_inserted %lu\nrestricted %lu\nallow_changed %lu\ncpukind_added %lu\nmemattr_set %lu\ndistances_added %lu\nxml_topologies %lu\npairs_with_hetero_distances %lu\nxml_roundtrips_file %lu\nxml_roundtrips_long_diff %lu\n",
+              "hand_lists %lu\nhand_failed %lu\nhand_ok %lu\npairs_with_dup_info_names %lu\nxml_roundtrips %lu\noracle_checks %lu\noracle_fail_known_class %lu\nmisc_inserted %lu\nrestricted %lu\nallow_changed %lu\ncpukind_added %lu\nmemattr_set %lu\ndistances_added %lu\nxml_topologies %lu\npairs_with_hetero_distances %lu\nxml_roundtrips_file %lu\nxml_roundtrips_long_diff %lu\ndistances_one_cell_changed %lu\n",
               st_cases, st_ret0, st_ret0_empty, st_ret1, st_f13a, st_entries_S, st_entries_N, st_entries_I, st_entries_T, st_hand, st_hand_fail, st_hand_ok,
-              st_dupnames, st_xml, st_orc, st_orc_fail_known, st_misc, st_restrict, st_allow, st_kind, st_mattr, st_dist, st_xmltopo, st_hetero, st_xml_file, st_xml_big);
+              st_dupnames, st_xml, st_orc, st_orc_fail_known, st_misc, st_restrict, st_allow, st_kind, st_mattr, st_dist, st_xmltopo, st_hetero, st_xml_file, st_xml_big, st_distcell);
       fclose(fs);
     }
   } else { fprintf(stderr, "usage: diff <ncases> <ops> <model-in> <c-out> <oracle> <stats> | --replay <ops> <model-in> <c-out> <oracle>\n"); return 2; }
